@@ -856,6 +856,24 @@ func (e *Env) evalCall(t *ast.CallExpr) Val {
 		}
 		e.errf("elems() needs a slice of scalar elements")
 		return intVal("0")
+	case "elemsT", "elemsV":
+		// backing arrays of a slice of interface values: dynamic-type leaf / payload leaf
+		v := arg(0)
+		if v.Typ != nil {
+			if st, ok := v.Typ.Underlying().(*types.Slice); ok {
+				if _, isI := st.Elem().Underlying().(*types.Interface); isI {
+					suf := "#t"
+					if name == "elemsV" {
+						suf = "#v"
+					}
+					fam := "E_" + vc.typeName(st.Elem()) + suf
+					vc.family(fam, famSortFor("Int", 2))
+					return Val{L: []string{"(select " + vc.lookup(e.heap, fam) + " " + v.L[0] + ")"}, S: []string{"(Array Int Int)"}}
+				}
+			}
+		}
+		e.errf("%s() needs a slice of interface values", name)
+		return intVal("0")
 	case "has":
 		m, k := arg(0), arg(1)
 		if m.Typ != nil {
@@ -896,6 +914,10 @@ func (e *Env) evalCall(t *ast.CallExpr) Val {
 			}
 		}
 		return boolVal(vc.unchangedFormula(e.old, e.heap, e.oldNow(), except))
+	case "store":
+		// store(seq, i, v): functional update of a ghost sequence
+		a, i, v := arg(0), arg(1), arg(2)
+		return Val{L: []string{"(store " + a.T() + " " + i.T() + " " + v.T() + ")"}, S: []string{vc.sortOf(a, 0)}}
 	case "strOf":
 		// strOf(b): the string with the bytes of slice b (same term as the conversion string(b))
 		v := arg(0)
